@@ -41,10 +41,20 @@ impl Reorg {
             .into_option()?;
 
           if index_block_hash == bitcoind_block_hash {
+            #[cfg(feature = "verif")]
+            crate::verif::emit(
+              "ReorgDetected",
+              serde_json::json!({"height": height, "depth": depth, "recoverable": true}),
+            );
             return Err(anyhow!(reorg::Error::Recoverable { height, depth }));
           }
         }
 
+        #[cfg(feature = "verif")]
+        crate::verif::emit(
+          "ReorgDetected",
+          serde_json::json!({"height": height, "depth": 0, "recoverable": false}),
+        );
         Err(anyhow!(reorg::Error::Unrecoverable))
       }
       _ => Ok(()),
@@ -66,7 +76,17 @@ impl Reorg {
     wtx.restore_savepoint(&oldest_savepoint)?;
 
     Index::increment_statistic(&wtx, Statistic::Commits, 1)?;
+    #[cfg(feature = "verif")]
+    crate::verif::crash_point("pre_rollback_commit");
     wtx.commit()?;
+    #[cfg(feature = "verif")]
+    {
+      crate::verif::emit(
+        "Rollback",
+        serde_json::json!({"height": height, "depth": depth, "count": index.begin_read()?.block_count()?}),
+      );
+      crate::verif::crash_point("post_rollback_commit");
+    }
 
     log::info!(
       "successfully rolled back database to height {}",
@@ -126,7 +146,14 @@ impl Reorg {
       }
 
       Index::increment_statistic(&wtx, Statistic::Commits, 1)?;
+      #[cfg(feature = "verif")]
+      crate::verif::crash_point("pre_savepoint_delete_commit");
       wtx.commit()?;
+      #[cfg(feature = "verif")]
+      {
+        crate::verif::emit("SavepointDelete", serde_json::json!({"height": height}));
+        crate::verif::crash_point("post_savepoint_delete_commit");
+      }
 
       let wtx = index.begin_write()?;
 
@@ -139,7 +166,14 @@ impl Reorg {
         .insert(&Statistic::LastSavepointHeight.key(), &height.into())?;
 
       Index::increment_statistic(&wtx, Statistic::Commits, 1)?;
+      #[cfg(feature = "verif")]
+      crate::verif::crash_point("pre_savepoint_create_commit");
       wtx.commit()?;
+      #[cfg(feature = "verif")]
+      {
+        crate::verif::emit("SavepointCreate", serde_json::json!({"height": height}));
+        crate::verif::crash_point("post_savepoint_create_commit");
+      }
     }
 
     Ok(())
